@@ -11,20 +11,24 @@ Inductive aexp :=
 | ARef (n : N)                  (* rule name *)
 | ASeq (a b : aexp)             (* a b *)
 | AAlt (a b : aexp)             (* a / b *)
-| AStar (a : aexp).             (* *a *)
+| AStar (a : aexp)              (* *a *)
+| ALook (p : list N -> bool).   (* zero-width assertion about the text that FOLLOWS (used only for the tokenisation
+                                   convention "an identifier is not followed by a character that continues it") *)
 
 (* a grammar is a list of productions; a name may have several (ABNF's "=/") *)
 Definition cfg := list (N * aexp).
 
-Inductive Der (g : cfg) : aexp -> list N -> Prop :=
-| DEps : Der g AEps []
-| DRng : forall lo hi c, lo <= c -> c <= hi -> Der g (ARng lo hi) [c]
-| DRef : forall n e w, In (n, e) g -> Der g e w -> Der g (ARef n) w
-| DSeq : forall a b u v, Der g a u -> Der g b v -> Der g (ASeq a b) (u ++ v)
-| DAltL : forall a b u, Der g a u -> Der g (AAlt a b) u
-| DAltR : forall a b u, Der g b u -> Der g (AAlt a b) u
-| DStar0 : forall a, Der g (AStar a) []
-| DStarS : forall a u v, Der g a u -> Der g (AStar a) v -> Der g (AStar a) (u ++ v).
+(* Der g e u r : e derives the string u when u is followed by r (r matters only below ALook) *)
+Inductive Der (g : cfg) : aexp -> list N -> list N -> Prop :=
+| DEps : forall r, Der g AEps [] r
+| DRng : forall lo hi c r, lo <= c -> c <= hi -> Der g (ARng lo hi) [c] r
+| DRef : forall n e w r, In (n, e) g -> Der g e w r -> Der g (ARef n) w r
+| DSeq : forall a b u v r, Der g a u (v ++ r) -> Der g b v r -> Der g (ASeq a b) (u ++ v) r
+| DAltL : forall a b u r, Der g a u r -> Der g (AAlt a b) u r
+| DAltR : forall a b u r, Der g b u r -> Der g (AAlt a b) u r
+| DStar0 : forall a r, Der g (AStar a) [] r
+| DStarS : forall a u v r, Der g a u (v ++ r) -> Der g (AStar a) v r -> Der g (AStar a) (u ++ v) r
+| DLook : forall p r, p r = true -> Der g (ALook p) [] r.
 
 (* derived ABNF operators *)
 Definition AFail : aexp := ARng 1 0.
@@ -100,6 +104,7 @@ Fixpoint ls (fuel : nat) (e : aexp) (w : list N) {struct fuel} : lres :=
                   let r2 := lbind (fst r1) (ls f b) in (fst r2, snd r1 || snd r2)
     | AAlt a b => lunion (ls f a w) (ls f b w)
     | AStar a => lstar f a [w]
+    | ALook p => if p w then ([w], false) else ([], false)
     end
   end
 with lstar (fuel : nat) (a : aexp) (F : list (list N)) {struct fuel} : lres :=
